@@ -461,3 +461,35 @@ pub fn check_ref_vert<P>(
         y += 1;
     }
 }
+
+// ---------------------------------------------------------------------------
+// C01 (tap level): the real quantised coefficients are the ideal weights rounded to 2^-p
+// ---------------------------------------------------------------------------
+
+pub const TAP_SHIFT: u32 = 40;
+
+/// Per output sample: first index and the ideal weights * 2^40 of the union of the ideal and
+/// the real window.  `|c[i] * 2^(40-p) - W40[i]| <= 2^(39-p) + 2` for every tap (a tap the
+/// real window does not have counts as c = 0): each real coefficient is the ideal weight
+/// rounded to the nearest multiple of 2^-p (plus 2 units of 2^-40 for f64 noise in the oracle).
+/// Together with "kernel == fixed-point spec of its own coefficients, for all contents" this
+/// gives |out - ideal| <= 1/2 + max * n * 2^-(p+1) for all contents (triangle inequality).
+pub fn check_taps(pass: &Pass, starts: &[u32], w40: &[&[i64]]) {
+    let p = pass.precision as u32;
+    let allowed: i64 = (1i64 << (TAP_SHIFT - 1 - p)) + 2;
+    let mut x = 0;
+    while x < pass.bounds.len() {
+        let (rs, rn) = pass.bounds[x];
+        let mut i = 0;
+        while i < w40[x].len() {
+            let idx = starts[x] as i64 + i as i64;
+            let k = idx - rs as i64;
+            let c: i64 = if k >= 0 && (k as u32) < rn { pass.coeffs[x][k as usize] as i64 } else { 0 };
+            let d = (c << (TAP_SHIFT - p)) - w40[x][i];
+            assert!(d <= allowed && d >= -allowed, "C01: every real coefficient is the ideal weight rounded to 2^-precision");
+            i += 1;
+        }
+        assert!(rs >= starts[x] && (rs + rn) as usize <= starts[x] as usize + w40[x].len(), "C01: the real window lies inside the listed window");
+        x += 1;
+    }
+}
